@@ -7,31 +7,31 @@ TRUSTED_BASE = [
     "tools/gen (Go->Lean translator, re-run on /repo's working tree on every check) and its validation by the correspondence run",
     "Base/F64.lean + Base/FB.lean: our formalisation of IEEE-754 binary64 (+ - * / compare min round floor), validated against the hardware by the float stream",
     "Base/Go.lean: Go semantics of the translated subset (uint8 wrap-around, switch, range loops, errors)",
-    "hand-written models Model/Parse.lean (ParseVector, split, splitCouple, kvm.Set): tied by source hashes (Model/SrcTie.lean) and by the correspondence differential only",
+    "parsers: regenerated from the source (Gen/P*.lean) and proved equal to the readable models Model/Parse.lean (Props/ParseTie.lean); trusted: the translator's Go semantics for strings, slices, loops and sync.Pool.Get (any 14-slot buffer)",
     "Spec/*.lean: our transcription of the FIRST v2.0/v3.0/v3.1/v4.0 documents; v4 lookup table from an independent transcription (spec-data/)",
     "Go 1.23 gc compiler on amd64 without FMA contraction; this machine's FPU (correspondence runs)",
 ]
 
 # modules whose theorems are the obligations of the property (audited); `ties` are built too (a failure = tie broken)
 PROPS = {
-    "C01": dict(modules=["Cvss.Props.C01", "Cvss.Props.C01v2", "Cvss.Props.C01v3", "Cvss.Props.C01v4"], ties=["Cvss.Model.SrcTie"], streams=["parse"]),
-    "C02": dict(modules=["Cvss.Props.C02", "Cvss.Props.C02v2", "Cvss.Props.C02v3", "Cvss.Props.C02v4"], ties=["Cvss.Model.SrcTie"], streams=["parse", "obj"]),
+    "C01": dict(modules=["Cvss.Props.C01", "Cvss.Props.ParseTieTransfer", "Cvss.Props.C01v2", "Cvss.Props.C01v3", "Cvss.Props.C01v4"], ties=["Cvss.Props.ParseTie"], streams=["parse"]),
+    "C02": dict(modules=["Cvss.Props.C02", "Cvss.Props.C02v2", "Cvss.Props.C02v3", "Cvss.Props.C02v4"], ties=["Cvss.Props.ParseTie"], streams=["parse", "obj"]),
     "C03": dict(modules=["Cvss.Props.C03", "Cvss.Proofs.Score3Base30", "Cvss.Proofs.Score3Base31", "Cvss.Proofs.Score3Close30", "Cvss.Proofs.Score3Close31", "Cvss.Proofs.Score3CloseDef", "Cvss.Proofs.Score3Codes30", "Cvss.Proofs.Score3Codes31", "Cvss.Proofs.Score3Env30_0", "Cvss.Proofs.Score3Env30_1", "Cvss.Proofs.Score3Env30_2", "Cvss.Proofs.Score3Env30_3", "Cvss.Proofs.Score3Env31_0", "Cvss.Proofs.Score3Env31_1", "Cvss.Proofs.Score3Env31_2", "Cvss.Proofs.Score3Env31_3", "Cvss.Proofs.Score3M30", "Cvss.Proofs.Score3M31", "Cvss.Proofs.Score3Main30", "Cvss.Proofs.Score3Main31", "Cvss.Proofs.Score3Roundup", "Cvss.Proofs.Score3Spec", "Cvss.Proofs.Score3T30", "Cvss.Proofs.Score3T31", "Cvss.Proofs.Score3Util"], ties=[], streams=["score:F:30,31"]),
     "C04": dict(modules=["Cvss.Props.C04", "Cvss.Proofs.Score4Main", "Cvss.Proofs.Score4TailAll", "Cvss.Proofs.Score4Groups", "Cvss.Proofs.Score4Loops", "Cvss.Proofs.Score4MV", "Cvss.Proofs.Score4Shape", "Cvss.Spec.V4Lemmas", "Cvss.Proofs.Score4Tail00", "Cvss.Proofs.Score4Tail01", "Cvss.Proofs.Score4Tail02", "Cvss.Proofs.Score4Tail03", "Cvss.Proofs.Score4Tail04", "Cvss.Proofs.Score4Tail05", "Cvss.Proofs.Score4Tail06", "Cvss.Proofs.Score4Tail07", "Cvss.Proofs.Score4Tail08", "Cvss.Proofs.Score4Tail09", "Cvss.Proofs.Score4Tail10", "Cvss.Proofs.Score4Tail11", "Cvss.Proofs.Score4Tail12", "Cvss.Proofs.Score4Tail13", "Cvss.Proofs.Score4Tail14", "Cvss.Proofs.Score4Tail15", "Cvss.Proofs.Score4Tail16", "Cvss.Proofs.Score4Tail17"], ties=[], streams=["score:F:40"]),
     "C05": dict(modules=["Cvss.Props.C05", "Cvss.Proofs.Score2Base", "Cvss.Proofs.Score2Defs", "Cvss.Proofs.Score2F", "Cvss.Proofs.Score2Main", "Cvss.Proofs.Score2Mono", "Cvss.Proofs.Score2Near", "Cvss.Proofs.Score2Ok", "Cvss.Proofs.Score2RB00", "Cvss.Proofs.Score2RB01", "Cvss.Proofs.Score2RB02", "Cvss.Proofs.Score2RB10", "Cvss.Proofs.Score2RB11", "Cvss.Proofs.Score2RB12", "Cvss.Proofs.Score2RB20", "Cvss.Proofs.Score2RB21", "Cvss.Proofs.Score2RB22", "Cvss.Proofs.Score2T20", "Cvss.Proofs.Score2T21", "Cvss.Proofs.Score2T22", "Cvss.Proofs.Score2T23", "Cvss.Proofs.Score2T2Mono", "Cvss.Proofs.Score2Tables", "Cvss.Proofs.Score2Wf"], ties=[], streams=["score:F:20"]),
-    "C06": dict(modules=["Cvss.Props.C06", "Cvss.Props.C06v2", "Cvss.Props.C06v3", "Cvss.Props.C06v4"], ties=["Cvss.Model.SrcTie"], streams=["parse"]),
+    "C06": dict(modules=["Cvss.Props.C06", "Cvss.Props.C06v2", "Cvss.Props.C06v3", "Cvss.Props.C06v4"], ties=["Cvss.Props.ParseTie"], streams=["parse"]),
     "C07": dict(modules=["Cvss.Props.C07", "Cvss.Props.C07v4"], ties=[], streams=["obj"]),
-    "C08": dict(modules=["Cvss.Props.C08", "Cvss.Props.C08v2", "Cvss.Props.C08v3", "Cvss.Props.C08v4"], ties=["Cvss.Model.SrcTie"], streams=["parse", "obj"]),
+    "C08": dict(modules=["Cvss.Props.C08", "Cvss.Props.C08v2", "Cvss.Props.C08v3", "Cvss.Props.C08v4"], ties=["Cvss.Props.ParseTie"], streams=["parse", "obj"]),
     "C09": dict(modules=["Cvss.Props.C09", "Cvss.Props.C09v4", "Cvss.Props.C09b"], ties=[], streams=["obj", "parse"]),
     "C10": dict(modules=["Cvss.Props.C10"], ties=[], streams=["score:K"]),
     "C11": dict(modules=["Cvss.Props.C11v2", "Cvss.Props.C11v3", "Cvss.Props.C11v4"], ties=[], streams=["score:F"]),
     "C12": dict(modules=["Cvss.Props.C12v2", "Cvss.Props.C12v3", "Cvss.Props.C12v4", "Cvss.Proofs.Score3MonoA_0", "Cvss.Proofs.Score3MonoA_1", "Cvss.Proofs.Score3MonoA_2", "Cvss.Proofs.Score3MonoA_3", "Cvss.Proofs.Score3MonoBT", "Cvss.Proofs.Score3MonoB_0", "Cvss.Proofs.Score3MonoB_1", "Cvss.Proofs.Score3MonoB_2", "Cvss.Proofs.Score3MonoDefs", "Cvss.Proofs.Score3MonoObj", "Cvss.Proofs.Score3MonoSpec", "Cvss.Proofs.Score3MonoStr", "Cvss.Proofs.Mono4All", "Cvss.Proofs.Mono4Bound", "Cvss.Proofs.Mono4Bridge0", "Cvss.Proofs.Mono4Bridge1", "Cvss.Proofs.Mono4Bridge2", "Cvss.Proofs.Mono4Bridge3", "Cvss.Proofs.Mono4Bridge4", "Cvss.Proofs.Mono4Bridge5", "Cvss.Proofs.Mono4BridgeDef", "Cvss.Proofs.Mono4Cover", "Cvss.Proofs.Mono4Cover36", "Cvss.Proofs.Mono4Cover36H", "Cvss.Proofs.Mono4Cover36L", "Cvss.Proofs.Mono4Cover36N", "Cvss.Proofs.Mono4Eff", "Cvss.Proofs.Mono4Lists", "Cvss.Proofs.Mono4P", "Cvss.Proofs.Mono4Pack", "Cvss.Proofs.Mono4Raw", "Cvss.Proofs.Mono4Tab1", "Cvss.Proofs.Mono4Tab2", "Cvss.Proofs.Mono4Tab36", "Cvss.Proofs.Mono4Tab4", "Cvss.Proofs.Mono4Tab5"], ties=[], streams=["score:M"]),
-    "C13": dict(modules=["Cvss.Props.C13", "Cvss.Props.C13b", "Cvss.Props.C13v2", "Cvss.Props.C13v3", "Cvss.Props.C13v4"], ties=["Cvss.Model.SrcTie"], streams=["parse"]),
-    "C14": dict(modules=["Cvss.Props.C14"], ties=["Cvss.Model.SrcTie"], streams=["race", "hist", "obj"]),
+    "C13": dict(modules=["Cvss.Props.C13", "Cvss.Props.C13b", "Cvss.Props.C13v2", "Cvss.Props.C13v3", "Cvss.Props.C13v4"], ties=["Cvss.Props.ParseTie"], streams=["parse"]),
+    "C14": dict(modules=["Cvss.Props.C14"], ties=["Cvss.Props.ParseTie"], streams=["race", "hist", "obj"]),
     "C15": dict(modules=["Cvss.Props.C15"], ties=[], streams=["rating"]),
     "C16": dict(modules=["Cvss.Props.C16"], ties=[], streams=["obj"]),
     "C17": dict(modules=["Cvss.Props.C17"], ties=[], streams=["obj", "alloc"]),
-    "C18": dict(modules=["Cvss.Props.C18", "Cvss.Props.C18v2", "Cvss.Props.C18v3", "Cvss.Props.C18v4", "Cvss.Findings.C18v2"], ties=["Cvss.Model.SrcTie"], streams=["defect", "obj", "parse"]),
+    "C18": dict(modules=["Cvss.Props.C18", "Cvss.Props.ParseTieTransfer", "Cvss.Props.C18v2", "Cvss.Props.C18v3", "Cvss.Props.C18v4", "Cvss.Findings.C18v2"], ties=["Cvss.Props.ParseTie"], streams=["defect", "obj", "parse"]),
 }
 
 # every stream also validates the model (DIFF lines); the float stream validates Base/F64 for the score properties
@@ -46,9 +46,11 @@ _PENDING = "Lean theorems for this property are being merged; until its Props mo
 _NOTE = ("testing level: reach bounded by the generators (edit neighbourhoods of valid skeletons, seeded mutational and random streams); "
          "oracle = executable Lean Spec (lean/Cvss/Spec), model validated against the code on every run")
 _TECH = "Lean 4 proof about a model regenerated from the Go source, tied by translation + differential correspondence; Spec-oracle search for the failing input"
-_PARSER_NOTE = ("trusted: Lean kernel; the hand-written parser model Model/Parse.lean (tied to ParseVector/split/splitCouple/kvm.Set by source hashes and by the "
-                "parse/defect streams: ~1.3e5 strings per quick run, edit neighbourhoods of valid skeletons + mutational + random bytes, 0 differences); the translator for "
-                "Get/Set/tables; the Spec transcription (Spec/Metrics, Spec/Grammar, Spec/Errors)")
+_PARSER_NOTE = ("trusted: Lean kernel; the translator (tools/gen) which REGENERATES ParseVector, split, splitCouple and kvm.Set of all four packages into lean/Cvss/Gen/P*.lean on every run - "
+                "Props/ParseTie.lean proves, for every byte string (and every stale pool buffer for v2), that the regenerated parser equals the readable model Model/Parse.lean the theorems are "
+                "stated on, incl. that no index/slice/loop-fuel panic is reachable; its Go semantics for strings/slices/loops (Base/Go.lean, strings.Cut/HasPrefix models); validated by the "
+                "parse/defect streams (~1.3e5 strings per quick run: edit neighbourhoods of valid skeletons + mutational + random bytes, 0 differences); the Spec transcription "
+                "(Spec/Metrics, Spec/Grammar, Spec/Errors)")
 LEVEL_TEXT = {
     pid: _lt("exploration", _PENDING, _NOTE, "differential testing of the implementation against an executable Lean Spec and model (proofs pending)")
     for pid in []
